@@ -28,6 +28,10 @@ class SpecError(Exception):
     pass
 
 
+class NoneDeref(SpecError):
+    """a clause reads a field of a value that is definitely None in this state"""
+
+
 REPO = os.environ.get('PYVC_REPO', '/repo')
 
 _uid = [0]
@@ -93,7 +97,8 @@ def relpath_of_module(mod):
 # ============================================================ contracts
 
 class LoopSpec(object):
-    def __init__(self, inv=(), modifies=(), index=None, decreases=None, unroll=None):
+    def __init__(self, inv=(), modifies=(), index=None, decreases=None, unroll=None, snapshot=()):
+        self.snapshot = list(snapshot)   # locals whose loop-entry value is available as pre_<name>
         self.inv = list(inv)
         self.modifies = list(modifies)
         self.index = index
@@ -405,7 +410,12 @@ class SpecEval(object):
         return self.cache[text]
 
     def bool(self, text, senv):
-        v = self.ev(self.parse(text), senv)
+        try:
+            v = self.ev(self.parse(text), senv)
+        except NoneDeref:
+            # undefined in this state: an unconstrained truth value (as a goal it can only be
+            # discharged by an infeasible path condition; as an assumption it adds nothing)
+            return z3.Bool(fresh_name('undef'))
         return self.as_bool(v, senv)
 
     def as_bool(self, v, senv):
@@ -447,6 +457,8 @@ class SpecEval(object):
         return self.getattr(o, n.attr, e)
 
     def getattr(self, o, attr, e):
+        if isinstance(o, VNone):
+            raise NoneDeref('spec: .%s of None' % attr)
         if isinstance(o, VOpt):
             o = o.val
         if isinstance(o, VRef):
@@ -649,7 +661,7 @@ class SpecEval(object):
                 return VSeq(h.seq, h.etype)
             if isinstance(h, HDict):
                 return VDictVal(h.ktype, h.vtype, h.keys, list(h.maps))
-            raise SpecError('old() of an object reference: write old(obj.field) instead')
+            return VOldRef(v.ref)      # only its None-ness / identity may be used
         if isinstance(v, VOpt):
             return VOpt(v.isnone, self.freeze(v.val, st))
         if isinstance(v, VTuple):
@@ -664,6 +676,14 @@ class SpecEval(object):
         if isinstance(hn, HDict):
             return z3.And([hn.keys == ho.keys] + [a == b for a, b in zip(hn.maps, ho.maps)])
         return z3.BoolVal(new.ref == old.ref)
+
+
+class VOldRef(Val):
+    """reference to an object as of the pre-state: fields must be read inside old(...)"""
+    __slots__ = ('ref',)
+
+    def __init__(self, ref):
+        self.ref = ref
 
 
 class VDictVal(Val):
